@@ -22,5 +22,9 @@ func TestIngest(t *testing.T) {
 			t.Errorf("HARNESS-ERROR %v", r)
 		}
 	}()
-	simcheck.Explore(t, c, prop, GenScenario, func(s Scenario) *simcheck.RunInfo { return RunIngest(t, s) })
+	gen := GenScenario
+	if prop == "C05" {
+		gen = GenHostileScenario
+	}
+	simcheck.Explore(t, c, prop, gen, func(s Scenario) *simcheck.RunInfo { return RunIngest(t, s) })
 }
